@@ -184,6 +184,11 @@ where
     let workers = workers.max(1);
     let watch = Watch::new(workers);
     let mut total = Stats::default();
+    // Debug aid: NUSIM_RUNLOG=<dir> makes every worker record (phase, run index) before each run,
+    // so that a crash of the process itself (stack overflow, abort) can be attributed to a run.
+    static PHASE: std::sync::atomic::AtomicU64 = std::sync::atomic::AtomicU64::new(0);
+    let phase = PHASE.fetch_add(1, Ordering::SeqCst);
+    let runlog = std::env::var("NUSIM_RUNLOG").ok();
     std::thread::scope(|s| {
         let w2 = watch.clone();
         let on_hang = &on_hang;
@@ -204,7 +209,12 @@ where
         for w in 0..workers {
             let f = &f;
             let watch = watch.clone();
-            handles.push(s.spawn(move || {
+            let runlog = runlog.clone();
+            // Large stacks: the format libraries recurse once per nesting level (rmp-serde up to
+            // 1024 levels) and the scenario binaries are compiled without optimisation, so a
+            // corrupted document that nests ~1000 arrays needs more than the default 2 MiB.
+            let builder = std::thread::Builder::new().name(format!("nusim-worker-{w}")).stack_size(512 << 20);
+            handles.push(builder.spawn_scoped(s, move || {
                 let ctx = WorkerCtx { worker: w, watch };
                 let mut st = Stats {
                     keep_trace,
@@ -212,7 +222,15 @@ where
                 };
                 let mut i = w as u64;
                 let mut since_compact = 0u64;
+                let logf = runlog.as_ref().and_then(|d| std::fs::OpenOptions::new().create(true).write(true).open(format!("{d}/worker-{w}")).ok());
                 while i < n_runs {
+                    if let Some(f) = &logf {
+                        use std::os::unix::fs::FileExt;
+                        let mut b = [0u8; 16];
+                        b[..8].copy_from_slice(&phase.to_le_bytes());
+                        b[8..].copy_from_slice(&i.to_le_bytes());
+                        let _ = f.write_at(&b, 0);
+                    }
                     // A panic here is a bug of the harness itself (calls into generated code are
                     // wrapped in catch_unwind by the scenarios): report it as such, never as a hang.
                     let r = std::panic::catch_unwind(std::panic::AssertUnwindSafe(|| f(i, &mut st, &ctx)));
@@ -234,7 +252,7 @@ where
                 }
                 st.compact();
                 st
-            }));
+            }).expect("cannot spawn worker thread"));
         }
         for h in handles {
             let st = h.join().expect("worker thread panicked outside catch_unwind: harness bug");
